@@ -73,7 +73,7 @@ pub fn verbatim_mask(text: &str, toks: &[Tok]) -> Vec<bool> {
                 None => {}
             }
         }
-        if off || on_toggle || t.asm || (has_cond && asm_seen) {
+        if off || on_toggle || ((t.asm || (has_cond && asm_seen)) && t.kind != Kind::Eof) {
             mask[i] = true;
         }
         if t.kind == Kind::Keyword(3) {
